@@ -246,7 +246,7 @@ class NB:
         axis = d(st.sampled_from([len(shape) - 1, len(shape) - 1, 1 if len(shape) > 2 else len(shape) - 1, 2 if len(shape) > 3 else len(shape) - 1]))
         if other is not None and self.info(other)["shape"][:axis] + self.info(other)["shape"][axis + 1:] != shape[:axis] + shape[axis + 1:]:
             other = None
-        exact = self.profile in ("exact", "slices", "elementwise", "approx", "exact16", "convs")  # the int8 reference kernel demands identical quantisation; C01's exact class keeps to it
+        exact = self.profile in ("exact", "slices", "elementwise", "approx", "exact16", "convs", "mixed")  # the int8 reference kernel demands identical quantisation; C01's exact class keeps to it
         if exact and other is not None and (self.info(other)["scale"], self.info(other)["zp"]) != (X["scale"], X["zp"]):
             other = None
         if other is None:
@@ -530,6 +530,10 @@ def network(profile="exact", max_ops=6, dtypes=("int8", "int8", "int8", "uint8",
         if profile == "exact16":  # exact-class operators whose 16-bit reference is pinned down (no ADD/SUB: their int16 reference depends on the pot_scale option)
             menu = ["conv", "conv", "conv", "dw", "fc", "maxpool", "avgpool_valid", "mul", "relu", "relu6", "reshape", "concat", "pad", "quantize", "sslice", "split",
                     "maximum", "minimum", "mul_const", "padconv", "add", "sub", "add_const"]
+        if profile == "mixed":  # exact-class operators interleaved with CPU-resident operators that have a reference kernel (stride-4 convolution, TILE), with heavy
+            # re-use of earlier tensors: several Ethos-U operators exchanging tensors with the CPU, compared by value
+            menu = ["conv", "dw_same", "add", "add", "mul", "sub", "maxpool", "relu", "concat", "unsupported_conv", "unsupported_conv", "tile", "add_const", "reshape"]
+            n_ops = draw(st.integers(3, max(max_ops, 3)))
         if profile == "residual":  # shape-preserving NPU and CPU operators over a pool of same-shaped tensors that are re-used again and again (several
             # Ethos-U operators exchanging tensors with CPU operators, tensors with consumers on both sides and late re-use)
             menu = ["add", "add", "mul", "sub", "custom", "custom", "rich_cpu", "relu", "add_const", "maximum", "dw_same"]
@@ -555,7 +559,7 @@ def network(profile="exact", max_ops=6, dtypes=("int8", "int8", "int8", "uint8",
             kind = draw(st.sampled_from(kinds))
             if approx_tail is not None and last:
                 kind = approx_tail
-            if not r4 and kind in ("conv", "dw", "maxpool", "avgpool_valid", "avgpool_same", "padconv", "tconv", "resize_nearest", "resize_bilinear", "mean"):
+            if not r4 and kind in ("conv", "dw", "dw_same", "unsupported_conv", "maxpool", "avgpool_valid", "avgpool_same", "padconv", "tconv", "resize_nearest", "resize_bilinear", "mean"):
                 kind = draw(st.sampled_from(["fc", "add_const", "reshape", "relu", "mul_const"]))
             if X["dtype"] == "int16" and kind in ("avgpool_same", "resize_bilinear", "hswish", "lrelu", "tconv", "mean", "softmax", "logistic", "tanh"):
                 kind = "relu"
@@ -585,7 +589,7 @@ def network(profile="exact", max_ops=6, dtypes=("int8", "int8", "int8", "uint8",
                 same = [t for t in history[:-1] if nb.info(t)["shape"] == X["shape"] and nb.info(t)["dtype"] == X["dtype"]]
                 if kind in ("maximum", "minimum"):  # the reference kernels demand identical quantisation
                     same = [t for t in same if (nb.info(t)["scale"], nb.info(t)["zp"]) == (X["scale"], X["zp"])]
-                if same and (draw(st.booleans()) or (profile == "residual" and draw(st.integers(0, 3)) != 0)):
+                if same and (draw(st.booleans()) or (profile in ("residual", "mixed") and draw(st.integers(0, 3)) != 0)):
                     other = draw(st.sampled_from(same))  # residual connection
                 cur = nb.binary(cur, kind.upper(), other)
             elif kind in ("add_const", "mul_const", "sub_const"):
